@@ -432,7 +432,7 @@ def reg_common(name):
     return z
 
 
-for _n in ('flat', 'hier2', 'ortho', 'entry'):
+for _n in ('flat', 'hier2', 'ortho', 'entry', 'hier3'):
     reg_common(_n)
 
 
